@@ -1286,3 +1286,5 @@ META = {
     "trusted_base": ["z3 / cvc5", "pyvc symbolic executor (python ast -> VCs)",
                      "dependency specs: iter/next/list/len on iterators, StopIteration.value, the async iterator protocol (__anext__/StopAsyncIteration)"],
 }
+
+from contracts import c07_emit as _e; TASKS = list(TASKS) + _e.TASKS
